@@ -1,2 +1,23 @@
-(* C17 -- placeholder while the proofs are being built *)
-From Verif Require Import Base.GoInt Json.StreamModel.
+(* C17 -- json.Tokenizer enumerates exactly the tokens of the document.
+   The tokenizer model (Json/StreamModel.v: t_next, tokenize) is hand-written and tied to /repo/json/token.go by
+   correspondence on every run; its scanner (json_decoder_parseValue etc.) is the REGENERATED translation.
+   The token specification (Json/StateSpec.v: g_tokens/spec_tokens) is derived from the RFC 8259 grammar alone. *)
+From Verif Require Import Base.GoInt Json.Ext Json.StreamModel Json.StateSpec Json.TokenProofs.
+
+(* every valid document: exactly the specification's delimiters and scalars, in order, with Depth, Index, IsKey
+   of every scalar and opening delimiter, and no error *)
+Theorem tokens_exact : tokens_exact_statement.
+Proof. exact TokenProofs.tokens_exact. Qed.
+
+(* the specification's token values concatenate to the compacted document *)
+Theorem tokens_concat : tokens_concat_statement.
+Proof. exact TokenProofs.tokens_concat. Qed.
+
+(* EVERY byte string: termination within S (length b) calls of Next, no out-of-range access, and each Value is the
+   sub-slice of the input that ends Remaining bytes before its end *)
+Theorem tok_total : tok_total_statement.
+Proof. exact TokenProofs.tok_total. Qed.
+
+(* once the error is set Next keeps returning false and changes nothing *)
+Theorem err_sticky : err_sticky_statement.
+Proof. exact TokenProofs.err_sticky. Qed.
